@@ -371,14 +371,15 @@ Definition chk_rt (c : bool * obj * seen bytes * seen bytes * seen obj * seen by
 Inductive hop := HEnc | HDec (b : bytes).
 Inductive hout :=
 | HOEnc (r : res bytes)                    (* encode() result *)
-| HODec (r : res obj) (fresh_r : res obj)  (* the object after decode(b) / a brand-new instance after decode(b) *)
+| HODec (r : res obj) (fresh_r : res obj) (fresh_enc : res bytes)
+    (* the object after decode(b) / a brand-new instance after decode(b) / what that new instance then encodes to *)
 | HOAfter (o : obj)                        (* the instance after a decode(b) that raised *)
 | HOUnexpected (what : string).            (* something the harness could not dump (see [seen]) *)
 
 Definition hout_eqb (x y : hout) : bool :=
   match x, y with
   | HOEnc a, HOEnc b => rbytes_eqb a b
-  | HODec a f, HODec b g => robj_eqb a b && robj_eqb f g
+  | HODec a f x, HODec b g y => robj_eqb a b && robj_eqb f g && rbytes_eqb x y
   | HOAfter a, HOAfter b => obj_eqb a b
   | _, _ => false
   end.
@@ -392,25 +393,29 @@ Fixpoint run_hist (o : obj) (ops : list hop) : list hout :=
       HOEnc r :: match r with Ok _ => run_hist o' t | Raise _ => [] end
   | HDec b :: t =>
       let r := decode_into o b in
-      HODec r (decode_into (fresh_like o) b) ::
+      let fr := decode_into (fresh_like o) b in
+      HODec r fr (match fr with Ok f => fst (encode_st f) | Raise e => Raise e end) ::
       match r with Ok o' => run_hist o' t | Raise _ => [HOAfter (decode_partial o b)] end
   end.
 
 (* property on the observed outputs alone: two encodes with no decode in between give the same
-   bytes; decode into a used object leaves exactly what decode into a new instance leaves *)
+   bytes; decode into a used object leaves exactly what decode into a new instance leaves — and
+   the next encode() of the used object gives exactly what the new instance encodes to (nothing
+   an earlier encode or decode left behind, visible in the dump or not, may show in the bytes) *)
 (* space_left is encode()'s scratch variable, not a field of the message *)
 Definition blank (o : obj) : obj :=
   match o with OMeiRsp a b c d e f i _ => OMeiRsp a b c d e f i None | _ => o end.
 
-Fixpoint prop_hist (prev : option bytes) (outs : list hout) : bool :=
+Fixpoint prop_hist (prev : option (res bytes)) (outs : list hout) : bool :=
   match outs with
   | [] => true
-  | HOEnc (Ok b) :: t => match prev with Some p => bytes_eqb p b | None => true end && prop_hist (Some b) t
-  | HOEnc (Raise _) :: _ => match prev with Some _ => false | None => true end
-  | HODec (Ok o) (Ok f) :: t => obj_eqb (blank o) (blank f) && prop_hist None t
-  | HODec (Raise _) (Raise _) :: [] => true
-  | HODec (Raise _) (Raise _) :: HOAfter _ :: _ => true     (* unconstrained: the partially assigned instance *)
-  | HODec _ _ :: _ => false
+  | HOEnc (Ok b) :: t => match prev with Some (Ok p) => bytes_eqb p b | Some (Raise _) => false | None => true end
+                         && prop_hist (Some (Ok b)) t
+  | HOEnc (Raise _) :: _ => match prev with Some (Ok _) => false | _ => true end
+  | HODec (Ok o) (Ok f) fe :: t => obj_eqb (blank o) (blank f) && prop_hist (Some fe) t
+  | HODec (Raise _) (Raise _) _ :: [] => true
+  | HODec (Raise _) (Raise _) _ :: HOAfter _ :: _ => true     (* unconstrained: the partially assigned instance *)
+  | HODec _ _ _ :: _ => false
   | HOAfter _ :: _ => false
   | HOUnexpected _ :: _ => false
   end.
